@@ -72,3 +72,71 @@ Definition e_c02_rescale_baf (v : val) : val :=
 
 (* the default thresholds the model uses (generated from do_call's signature) *)
 Definition e_c02_defaults (v : val) : val := vListQ default_thresholds.
+
+(* ---- do_call as one function (Model/Baf.v: do_call_model) --------------------------- *)
+
+(* a row: [chrom; start; end; log2|None; 2^log2; baf|None; v2; e2] *)
+Definition getDcRow (v : val) : option dc_in :=
+  match v with
+  | VL [c; lo; hi; l; e; b; v2; e2] =>
+      match getS c, getZ lo, getZ hi, getOpt getQ l with
+      | Some c, Some lo, Some hi, Some l =>
+          match getQ e, getOpt getQ b, getQ v2, getQ e2 with
+          | Some e, Some b, Some v2, Some e2 => Some (mk_dc_in c lo hi l e b v2 e2)
+          | _, _, _, _ => None
+          end
+      | _, _, _, _ => None
+      end
+  | _ => None
+  end.
+
+Definition method_of (s : string) : option call_method :=
+  if String.eqb s "none" then Some MNone
+  else if String.eqb s "threshold" then Some MThreshold
+  else if String.eqb s "clonal" then Some MClonal
+  else None.
+
+(* [rewritten ratio|None; log2|None; absolutes|None; cn|None; baf|None; has alleles; cn1|None; cn2|None] *)
+Definition vDcOut (o : dc_out) : val :=
+  VL [vOptQ (o_ratio o); vOptQ (o_log2 o); vOptQ (o_abs o); vOptZ (o_cn o); vOptQ (o_baf o);
+      VB (match o_alleles o with Some _ => true | None => false end);
+      vOptZ (match o_alleles o with Some (c1, _) => c1 | None => None end);
+      vOptZ (match o_alleles o with Some (_, c2) => c2 | None => None end)].
+
+(* [method; ploidy; purity|None; haploid_x_reference; sample_female; build|None; thresholds|None (default);
+    variants; with_baf; rows] -> rows, or VErr "AssertionError" / "NanCast" *)
+Definition e_c02_do_call (v : val) : val :=
+  match v with
+  | VL [m; k; p; hx; fem; b; ts; va; wb; rows] =>
+      match getS m, getZ k, getOpt getQ p, getB hx, getB fem with
+      | Some m, Some k, Some p, Some hx, Some fem =>
+          match getOpt getS b, getOpt (getList getQ) ts, getB va, getB wb, getList getDcRow rows with
+          | Some b, Some ts, Some va, Some wb, Some rows =>
+              match method_of m with
+              | Some m =>
+                  match do_call_model m k p hx fem b (thresholds_of ts) va wb rows with
+                  | DcOk out => VL (map vDcOut out)
+                  | DcAssert => VErr "AssertionError"
+                  | DcNanCast => VErr "NanCast"
+                  end
+              | None => VErr "ValueError"
+              end
+          | _, _, _, _, _ => bad_input
+          end
+      | _, _, _, _, _ => bad_input
+      end
+  | _ => bad_input
+  end.
+
+(* the literal walk of absolute_threshold's loop with the exact quotient:
+   [log2|None; 2^log2; thresholds; ploidy; r] -> [scan_row; thr_cn] *)
+Definition e_c02_scan (v : val) : val :=
+  match v with
+  | VL [l; e; ts; k; r] =>
+      match getOpt getQ l, getQ e, getList getQ ts, getZ k, getZ r with
+      | Some l, Some e, Some ts, Some k, Some r =>
+          VL [VZ (scan_row exact_div l e ts k r); VZ (thr_cn l e ts k r)]
+      | _, _, _, _, _ => bad_input
+      end
+  | _ => bad_input
+  end.
